@@ -230,6 +230,10 @@ var c09Types = []pb.Message_MessageType{
 
 func (w *c09World) genMessage(st *c09Stream) *pb.Message {
 	s := w.s
+	if num, den := w.bigKeyOdds(); den > 0 && s.Chance("big-key", num, den) {
+		// a key that fills the request up to about the transport limit (c09_bigkey.go)
+		return w.genBigKeyMessage(st, false)
+	}
 	m := &pb.Message{Type: c09Types[s.Draw("type", len(c09Types))]}
 	if w.variant == c09HugeK {
 		m.Type = []pb.Message_MessageType{pb.Message_FIND_NODE, pb.Message_GET_PROVIDERS, pb.Message_GET_VALUE}[s.Draw("huge-type", 3)]
